@@ -32,6 +32,50 @@ def mk_statement(card, prob, tag="subject"):
             "add_comment()": None, "comment_representation()": snapshot, "remove_comments()": None}
 
 
+def tuning_table(ctx, clause="D-d"):
+    """Entry-level decision table of the cardinality tuning pipeline (_tune_list_of_valid_statements): all_compliant x
+    disable_exact x allow_opt x cardinality {1, k>1, '+'} x probability {100 %, <100 %} -> final cardinality."""
+    p = ctx.p
+    obs, rows = [], 0
+    ev = Evaluator(ctx, watch={"add_comment", "remove_comments"})
+    # ------------------------------------------------------------------ D-d
+    t = p.func(ASS + "_tune_list_of_valid_statements")
+    for ac in (True, False):
+        for de in (True, False):
+            for allow in (True, False):
+                for card in (1, K, "+"):
+                    for prob in (1, P_LOW):
+                        st = mk_statement(card, prob)
+                        other = mk_statement(1, 1, tag="other")       # a second statement: every statement of the list is tuned
+                        lst = _SortableList([st, other])
+                        outs = ev.outcomes(t, {"valid_statements": lst},
+                                           {"self._all_compliant_mode": ac, "self._disable_exact_cardinality": de,
+                                            "self._disable_comments": False, "self._allow_opt_cardinality": allow,
+                                            "self._namespaces_dict": {}})
+                        rows += 1
+                        relaxed = ac and isinstance(prob, Sym)
+                        if relaxed:
+                            want = "?" if (allow and card == 1 and not isinstance(card, Sym)) else "*"
+                        elif de and isinstance(card, Sym):
+                            want = "+"
+                        else:
+                            want = card
+                        fin = ev.finals[0][0]["valid_statements"]
+                        got = [x for x in fin if x.get("tag") == "subject"]
+                        got = got[0] if got else fin[0]
+                        com = [e for o in outs for e in o[2] if e[0] == "add_comment"]
+                        ok = len(outs) == 1 and outs[0][0] == "return" and got["cardinality"] == want and \
+                            (not relaxed or (got["probability"] == 1 and len(com) == 1))
+                        obs.append(Ob(clause, "R-TABLE", "R-TABLE|tuning|all_compliant=%s,disable_exact=%s,allow_opt=%s,cardinality=%r,p=%r" % (
+                            ac, de, allow, card, prob), t.loc(), ok,
+                            "tuning pipeline: cardinality %r at %r -> %r" % (card, prob, want) if ok else
+                            "cardinality %r at probability %r (all_compliant=%s, disable_exact=%s, allow_opt=%s): expected %r%s, code gives "
+                            "%r, probability %r, %d comment(s) (%s)" % (card, prob, ac, de, allow, want,
+                                                                         " with probability 1 and the original figures in one comment" if relaxed else "",
+                                                                         got["cardinality"], got["probability"], len(com), [o[0] for o in outs])))
+    return obs, rows
+
+
 def check(ctx, tier):
     p = ctx.p
     obs, rows = [], 0
@@ -117,41 +161,9 @@ def check(ctx, tier):
         obs.append(Ob("D-c", "R-TABLE", "R-TABLE|best-cardinality|%s" % label, d.loc(), ok,
                       "%s -> %r, the other %d alternatives kept as comments" % (label, want, ncom) if ok else
                       "%s: expected %r with one comment per other cardinality, code gives %r with %d comments" % (label, want, got, ncom)))
-    # ------------------------------------------------------------------ D-d
-    t = p.func(ASS + "_tune_list_of_valid_statements")
-    for ac in (True, False):
-        for de in (True, False):
-            for allow in (True, False):
-                for card in (1, K, "+"):
-                    for prob in (1, P_LOW):
-                        st = mk_statement(card, prob)
-                        other = mk_statement(1, 1, tag="other")       # a second statement: every statement of the list is tuned
-                        lst = _SortableList([st, other])
-                        outs = ev.outcomes(t, {"valid_statements": lst},
-                                           {"self._all_compliant_mode": ac, "self._disable_exact_cardinality": de,
-                                            "self._disable_comments": False, "self._allow_opt_cardinality": allow,
-                                            "self._namespaces_dict": {}})
-                        rows += 1
-                        relaxed = ac and isinstance(prob, Sym)
-                        if relaxed:
-                            want = "?" if (allow and card == 1 and not isinstance(card, Sym)) else "*"
-                        elif de and isinstance(card, Sym):
-                            want = "+"
-                        else:
-                            want = card
-                        fin = ev.finals[0][0]["valid_statements"]
-                        got = [x for x in fin if x.get("tag") == "subject"]
-                        got = got[0] if got else fin[0]
-                        com = [e for o in outs for e in o[2] if e[0] == "add_comment"]
-                        ok = len(outs) == 1 and outs[0][0] == "return" and got["cardinality"] == want and \
-                            (not relaxed or (got["probability"] == 1 and len(com) == 1))
-                        obs.append(Ob("D-d", "R-TABLE", "R-TABLE|tuning|all_compliant=%s,disable_exact=%s,allow_opt=%s,cardinality=%r,p=%r" % (
-                            ac, de, allow, card, prob), t.loc(), ok,
-                            "tuning pipeline: cardinality %r at %r -> %r" % (card, prob, want) if ok else
-                            "cardinality %r at probability %r (all_compliant=%s, disable_exact=%s, allow_opt=%s): expected %r%s, code gives "
-                            "%r, probability %r, %d comment(s) (%s)" % (card, prob, ac, de, allow, want,
-                                                                         " with probability 1 and the original figures in one comment" if relaxed else "",
-                                                                         got["cardinality"], got["probability"], len(com), [o[0] for o in outs])))
+    o_tune, n_tune = tuning_table(ctx, "D-d")
+    obs += o_tune
+    rows += n_tune
     # ------------------------------------------------------------------ D-e
     o_memo, n_memo = memo.check(ctx, "D-e")     # a memo with an incomplete key conflates values (e.g. equal text, other datatype)
     obs += o_memo
@@ -164,6 +176,7 @@ def check(ctx, tier):
     obs += ctx.attempt(scanner.literal_type_table, ctx, "D-i", default=[])
     obs += ctx.attempt(scanner.numeric_token_table, ctx, "D-j", default=[])
     obs += ctx.attempt(lambda c, cl: mergetable.invariants(c, cl, which=("coverage", "no-crash"))[0], ctx, "D-k", default=[])
+    obs += ctx.attempt(lambda c, cl: scanner.rdflib_literal_datatype_source(c, cl)[0], ctx, "D-l", default=[])
     exceptions.apply(obs)
     return {"obs": obs, "floors": [Floor("R-TABLE rows evaluated", rows, 20), Floor("memo sites", n_memo, 3)],
             "explanation": "Decision tables of the relaxation (?, * and probability 1 with the original figures kept), of the offered "
